@@ -22,7 +22,7 @@ from fractions import Fraction
 import numpy as np
 
 PROP = 'C06'
-TARGETS = ['T6a', 'T6b', 'T6c', 'T6d', 'T6e', 'T6f', 'T6g', 'T6h', 'T6i', 'T6j', 'T6k', 'T6m', 'T6n']
+TARGETS = ['T6a', 'T6b', 'T6c', 'T6d', 'T6e', 'T6f', 'T6g', 'T6h', 'T6i', 'T6j', 'T6k', 'T6m', 'T6n', 'T6p', 'T6q']
 LEAN_MODULES = ['HdVerif.Props.C06']
 MODEL_MODULES = ['HdVerif.Model.PixelPipeline', 'HdVerif.Generated.T6g', 'HdVerif.Generated.T6i']
 NAMESPACE = 'HdVerif.C06'
@@ -2304,6 +2304,7 @@ def stream_narrowing(ctx, reqs, pending):
     """no transform applied x integer output dtype: nothing present, an identity rescale PRESENT (both attributes, slope only,
     intercept only; image / shared / per-frame), a non-identity rescale, modality switched off - stored values inside and
     outside the output type.  A value that does not fit must be refused, never wrapped."""
+    import highdicom.image as hd_image
     variants = {
         'no-rescale': {},
         'identity@image': {'rescale': [{'place': 'image', 'vals': [['1', '0']]}]},
@@ -2332,6 +2333,21 @@ def stream_narrowing(ctx, reqs, pending):
                 for dname in ('uint8', 'int8', 'uint16', 'int16', 'int32', 'uint32', 'int64'):
                     opts = {'dtype': dname}
                     kw = dict(flag_kwargs(flags), dtype=np.dtype(dname))
+                    # L2: the regenerated output-type rules (T6p) against the attributes of the real transform object
+                    tr = call(hd_image._CombinedPixelTransform, im, frame_index=0, output_dtype=np.dtype(dname),
+                              **{k: v for k, v in kw.items() if k != 'dtype'})
+                    if tr[0] == 'ok':
+                        t = tr[1]
+                        reqs.append(('outputRules', {
+                            'has_lut': t._effective_lut_data is not None, 'has_cm': t._color_manager is not None, 'lut_dtype_differs': False,
+                            'in_float': t.input_dtype.kind == 'f', 'has_si': t._effective_slope_intercept is not None, 'si_identity': False,
+                            'has_window': t._effective_window_center_width is not None, 'out_kind': t.output_dtype.kind,
+                            'in_kind': t.input_dtype.kind, 'can_cast_safe': bool(np.can_cast(t.input_dtype, t.output_dtype, 'safe')),
+                            'color_type': t._color_type.name}))
+                        pending.append(({'stream': 'narrow', 'image': iname, 'variant': vname, 'mod': mod, 'dtype': dname,
+                                         'what': 'output-type rules (T6p) vs transform attributes', 'layer': 'L2'},
+                                        {'has_si': t._effective_slope_intercept is not None,
+                                         'check_output_range': bool(t._check_output_range), 'color_output': bool(t.color_output)}))
                     for f in (0, 1):
                         res = call(im.get_frame, f + 1, **kw)
                         case = {'stream': 'narrow', 'image': iname, 'variant': vname, 'mod': mod, 'dtype': dname, 'frame': f}
